@@ -17,7 +17,7 @@ from common import err_code
 PROP = 13
 EV_UNIT = 1e-10
 FN_NAME = {1: "refine_hmmscan_results(neighbour_mode=True)", 2: "refine_hmmscan_results(neighbour_mode=False)",
-           3: "hmmer.remove_overlapping", 4: "filter_result_multiple", 5: "filter_results",
+           3: "hmmer.remove_overlapping", 4: "filter_result_multiple", 5: "filter_results", 8: "find_hmmer_hits (filter_results then filter_result_multiple)",
            6: "filter_nonterminal_docking_domains", 7: "HMMResult.merge"}
 
 KNOWN_TEXT = {
@@ -291,6 +291,42 @@ def impl_fr(eqgs, order, cds):
     return out
 
 
+def impl_find(eqgs, order, cds):
+    """ fn 8: the real find_hmmer_hits on the hits of fn 5's encoding; only the external HMMer run and the FASTA text are
+        replaced, signature cutoffs are below every score, so what is observed is the two filters in the order the
+        function applies them.  Output as fn 4 / fn 5: ids of `results` (sorted by hit_start), ids per gene """
+    from unittest import mock
+    from antismash.common.hmm_rule_parser import cluster_prediction as cp
+
+    class Signature:  # pylint: disable=too-few-public-methods
+        cutoff = -1000
+        seed_count = 1
+    profs = sorted({hit[1] for hits in cds for hit in hits})
+    objs = {}
+    for i, hits in enumerate(cds):
+        for hit in hits:
+            obj = Hsp(*hit)
+            obj.hit_id = f"c{i:03d}"
+            obj.evalue, obj.query_start, obj.query_end = 1e-20, obj.hid, obj.hid + 10
+            objs[obj.hid] = obj
+    by_prof = {}
+    for hid in order:       # `results` order = the order the search output lists the HSPs in
+        by_prof.setdefault(objs[hid].query_id, []).append(objs[hid])
+    canned = [types.SimpleNamespace(accession=name, hsps=hsps) for name, hsps in by_prof.items()]
+    groups = [set(f"prof{p:02d}" for p in group) for group in eqgs]
+    try:
+        with mock.patch.object(cp, "run_hmmsearch", return_value=canned), \
+                mock.patch.object(cp.fasta, "get_fasta_from_record", return_value=""):
+            found = cp.find_hmmer_hits(None, {f"prof{p:02d}": Signature() for p in profs}, "db", groups)
+    except Exception as exc:  # pylint: disable=broad-except
+        return [1, err_code(exc)]
+    out = [0, len(cds)]
+    for i in range(len(cds)):
+        ids = [hit.query_start for hit in found.get(f"c{i:03d}", [])]      # query_start carries the hit's id
+        out += [len(ids)] + ids
+    return out
+
+
 def gen_fr(rng):
     ncds = rng.choice([1, 1, 2])
     nprof = rng.choice([2, 3, 4])
@@ -515,8 +551,10 @@ def run(chk):
             fn, args = 3, gen_hmmer(rng)
         elif r < 0.82:
             fn, args = 4, (gen_frm(rng),)
-        elif r < 0.94:
+        elif r < 0.90:
             fn, args = 5, gen_fr(rng)
+        elif r < 0.94:
+            fn, args = 8, gen_fr(rng)
         elif r < 0.97:
             fn, args = 7, gen_merge(rng)
         else:
@@ -553,6 +591,20 @@ def run(chk):
             flat = enc_fr(*args)
             out = impl_fr(*args)
             size = sum(len(c) for c in args[2])
+        elif fn == 8:
+            # find_hmmer_hits builds `results` and the per-gene lists itself, in the order the search output lists the HSPs
+            # (profile by profile): the case is encoded with that order
+            eqgs, order, cds = args
+            prof_of = {h[0]: h[1] for hits in cds for h in hits}
+            first_seen = list(dict.fromkeys(prof_of[hid] for hid in order))
+            order = [hid for prof in first_seen for hid in order if prof_of[hid] == prof]
+            rank = {hid: k for k, hid in enumerate(order)}
+            cds = [sorted(hits, key=lambda h: rank[h[0]]) for hits in cds]
+            args = (eqgs, order, cds)
+            flat = enc_fr(*args)
+            flat[1] = 8
+            out = impl_find(*args)
+            size = sum(len(c) for c in args[2])
         elif fn == 7:
             flat = enc_merge(*args)
             out = impl_merge(*args)
@@ -582,6 +634,58 @@ def run(chk):
                       {"function": FN_NAME[fn], "input": describe(flat), "implementation": out})
     model_outs = common.correspondence(chk, cases, impl_outs, spec_fn_offset=None, describe=describe)
     agree = [m == o for m, o in zip(model_outs, impl_outs)]
+
+    # fn 8, judged by C13_find_hits_filters_spec: relative to the survivors of the competition (the Coq model of
+    # filter_results on the same input), every hit find_hmmer_hits returns for a gene is one of them and the best-scoring
+    # one of its profile among them, and every profile the competition left a hit (score above -1) keeps one
+    find_idx = [i for i, c in enumerate(cases) if c[1] == 8 and impl_outs[i][:1] == [0]]
+    stage1 = common.run_driver([[PROP, 5] + cases[i][2:] for i in find_idx])
+    for i, survivors in zip(find_idx, stage1):
+        chk.count("find_hmmer_hits_outputs_judged_by_spec")
+        if survivors[:1] != [0]:
+            continue
+        flat = cases[i]
+        # decode the hits of the payload: groups, results, genes
+        pos = 2
+        ngroups = flat[pos]; pos += 1
+        for _ in range(ngroups):
+            pos += 1 + flat[pos]
+        nres = flat[pos]; pos += 1
+        hit = {}
+        for _ in range(nres):
+            hid, prof, _hs, _he, sc, _rank = flat[pos:pos + 6]
+            hit[hid] = (prof, sc)
+            pos += 6
+        # survivors: [0, n, ids..., ngenes, (len, ids...)...]
+        spos = 2 + survivors[1]
+        ngenes = survivors[spos]; spos += 1
+        per_gene = []
+        for _ in range(ngenes):
+            k = survivors[spos]
+            per_gene.append(survivors[spos + 1:spos + 1 + k])
+            spos += 1 + k
+        out = impl_outs[i]
+        opos, bad = 2, None
+        for g in range(out[1]):
+            k = out[opos]
+            got = out[opos + 1:opos + 1 + k]
+            opos += 1 + k
+            left = per_gene[g] if g < len(per_gene) else []
+            for hid in got:
+                if hid not in left:
+                    bad = f"gene {g}: hit {hid} is returned although it lost the competition of equivalent profiles"
+                elif any(hit[o][0] == hit[hid][0] and hit[o][1] > hit[hid][1] for o in left):
+                    bad = f"gene {g}: hit {hid} is returned although a better-scoring hit of its profile survived the competition"
+            for o in left:
+                if hit[o][1] > -2 and not any(hit[h][0] == hit[o][0] for h in got):
+                    bad = (f"gene {g}: profile {hit[o][0]} disappears although its hit {o} lost to no better-scoring "
+                           f"overlapping hit of an equivalent profile")
+        if bad:
+            chk.violation("counterexample", "find_hmmer_hits: " + bad,
+                          {"theorem_or_correspondence": "C13_find_hits_filters_spec / find_hmmer_hits", "function": 8,
+                           "flat": flat, "input": describe(flat), "implementation": out,
+                           "survivors_of_the_competition_per_gene": per_gene})
+            break
 
     # the decidable specification on every implementation output of fn 1-3 and 7, and the finding classes
     spec_idx = [i for i, c in enumerate(cases) if c[1] in (1, 2, 3, 5, 7)]
